@@ -296,6 +296,23 @@ def gen_case(r, short=False):
         specs = twin_specs(r)
         k = 2
         twins = True
+    elif not short and r.random() < 0.06:
+        # solver A is driven to the floating-point collapse (an accuracy that doubles cannot reach): its Solve ends through the
+        # internal exception handler; solver B evaluates an objective whose numpy arithmetic underflows harmlessly.  Whatever A's
+        # way out leaves behind in the process (numpy's error mode, warnings filters) must not reach B
+        c0 = round(r.uniform(0.1, 0.9), 3)
+        a_ = {"problem": {"kind": "logged", "spec": {"kind": "cone", "p": [c0], "c": round(r.uniform(0.5, 3), 2)}, "lower": [0.0], "upper": [1.0]},
+              "params": {"eps": 1e-18, "r": round(r.uniform(1.2, 2.0), 2), "itersLimit": 400, "evolventDensity": 10, "refineSolution": False},
+              "ops": ["S", "G"]}
+        nb = r.choice([1, 2])
+        lo, hi = oc.gen_box(r, nb)
+        b_ = {"problem": {"kind": "logged", "spec": {"kind": "npgauss", "c": [round(r.uniform(0.1, 0.9), 3) for _ in range(nb)],
+                                                      "k": r.choice([3000.0, 20000.0]), "trend": 0.1}, "lower": lo, "upper": hi},
+              "params": {"eps": 0.01, "r": round(r.uniform(2, 4), 2), "itersLimit": 30, "evolventDensity": r.randint(4, 10), "refineSolution": False},
+              "ops": ["I2", "I3", "I2", "G"]}
+        specs = [a_, b_]
+        k = 2
+        twins = True          # (references from fresh interpreters: process-wide state also contaminates in-process references)
     elif not short and r.random() < 0.07:
         # a solver in a high dimension (N * default density 10 > 52) next to others, all on the default / one shared parameters object
         n = r.choice([6, 7])
@@ -315,6 +332,8 @@ def gen_case(r, short=False):
             specs.append(gen_solver_spec(r, like=specs[0] if r.random() < 0.35 else None, short=short))
     sched = [i for i, s in enumerate(specs) for _ in s["ops"]]
     r.shuffle(sched)
+    if specs[0]["params"] != "default" and isinstance(specs[0]["params"], dict) and specs[0]["params"].get("eps") == 1e-18:
+        sched = [0] + [i for i in sched if i == 1] + [0]       # A's Solve first, then all of B, then A's GetResults
     order = list(range(k))
     r.shuffle(order)
     case = {"solvers": specs, "schedule": sched, "construct": r.choice(["upfront", "lazy"]), "order": order}
